@@ -100,4 +100,8 @@ H_SIGNED(H_signed24, w_signed24, int32_t)
 H_SIGNED(H_signed40, w_signed40, int64_t)
 H_SIGNED(H_signed48, w_signed48, int64_t)
 H_SIGNED(H_signed56, w_signed56, int64_t)
+
+W_REL2(w_extMono, uint64_t, DOM_ANY, { varintWidth la, lb; varintExternalUnsignedEncoding(a, la); varintExternalUnsignedEncoding(b, lb); return a > b || la <= lb; })
+H_REL2(H_extMono, w_extMono, uint64_t, DOM_ANY)
+
 RP_MAIN()
